@@ -98,6 +98,22 @@ def _resolve_cfg(spec: dict) -> Tuple[Optional[Dict], List[str]]:
     return cfg, notes
 
 
+def _dump(cfg: Optional[Dict]) -> str:
+    """Scenario configurations are stored in replays as YAML text: JSON would turn the integer keys (router ports, ACL positions,
+    action numbers) into strings and the scenario would no longer load."""
+    import yaml
+    return yaml.safe_dump(cfg, sort_keys=False)
+
+
+def _cfg_of(rp: dict) -> Dict:
+    import yaml
+    if "cfg_yaml" in rp:
+        return yaml.safe_load(rp["cfg_yaml"])
+    if "shipped" in rp:       # corpus witnesses name the shipped scenario instead of carrying a copy of it
+        return _load(rp["shipped"])
+    return rp["cfg"]
+
+
 def _new_rec(unit: dict) -> dict:
     return {"label": unit.get("label", ""), "kind": unit["kind"], "lines": [], "impl": [], "viol": [], "hist": {}, "cases": [], "samples": [],
             "notes": [], "traces": 0, "extra": {}, "wall": 0.0, "segs": []}
@@ -128,14 +144,18 @@ def _absorb(rec: dict, p: envrig.Play, scenario: str, variant: str, cfg: Optiona
     _count(rec, "op:reset", p.resets)
     for f in p.fails:
         ops = ops_override if ops_override is not None else f.get("log", p.log)
-        what = (f"{scenario}/{variant}: {f['kind']} {f.get('exc', '')} {f.get('msg', '')[:160]} at {f.get('where', '')} "
-                f"action={f.get('action')} options={f.get('options')} tick={f.get('tick')} {extra_what}")
+        if "exc" in f:
+            what = (f"{scenario}/{variant}: {f['kind']} {f.get('exc', '')} {f.get('msg', '')[:160]} at {f.get('where', '')} "
+                    f"action={f.get('action')} options={f.get('options')} tick={f.get('tick')} {extra_what}")
+        else:
+            det = {k: v for k, v in f.items() if k not in ("kind", "log")}
+            what = f"{scenario}/{variant}: {f['kind']} {det} after {len(ops)} operations {extra_what}"
         replay = {"kind": "scheduled" if scenario_dir else "env", "scenario": scenario, "variant": variant, "marl": marl, "max_len": max_len,
                   "ops": ops, "failure": {k: v for k, v in f.items() if k != "log"}}
         if scenario_dir:
             replay["scenario_dir"] = scenario_dir
         else:
-            replay["cfg"] = cfg
+            replay["cfg_yaml"] = _dump(cfg)
         rec["viol"].append({"sig": _sig(f), "what": what, "replay": replay,
                             "agent_file": f.get("agent_file"), "kind": f["kind"]})
 
@@ -262,7 +282,7 @@ def _do_disturb(rec: dict, unit: dict):
         env = envrig.make_driver(cfg)
     except Exception as e:
         rec["viol"].append({"sig": {"kind": "env-construction-raises", "exc": type(e).__name__}, "what": f"{unit['label']}: constructor raises {e}",
-                            "replay": {"kind": "env", "scenario": unit["label"], "cfg": cfg, "ops": [], "marl": False, "max_len": max_len},
+                            "replay": {"kind": "env", "scenario": unit["label"], "cfg_yaml": _dump(cfg), "ops": [], "marl": False, "max_len": max_len},
                             "agent_file": None, "kind": "env-construction-raises"})
         return
     amap = dist.blue_map(cfg)
@@ -322,7 +342,43 @@ def _do_agents(rec: dict, unit: dict):
     rec["extra"]["raises"] = raises
 
 
-KINDS = {"case": _do_case, "sched": _do_sched, "marl": _do_marl, "probe": _do_probe, "disturb": _do_disturb, "agents": _do_agents}
+def _do_rewards(rec: dict, unit: dict):
+    """Reward configurations with extreme weights (harness/rigs/c01_rewards.py)."""
+    from harness.rigs import c01_rewards as rw
+    try:
+        cfg = _load(unit["scenario"])
+    except Exception as e:
+        rec["notes"].append(f"{unit['scenario']}: not loadable: {type(e).__name__}")
+        return
+    for k in range(unit["n"]):
+        mode = "bounded" if k % 3 else "overflow"
+        p, st = rw.run(cfg, unit["rng"].fork(f"r{k}"), mode, unit["episodes"], unit["steps"])
+        _absorb(rec, p, unit["scenario"], f"reward-weights-{mode}-{k}", st["cfg"], unit["steps"] + 5)
+        _count(rec, f"reward-extremes:{mode}:runs")
+        _count(rec, f"reward-extremes:{mode}:steps", p.steps)
+        if mode == "overflow":
+            _count(rec, "reward-extremes:overflow:non-finite-values-seen (out of domain, not reported)", st["non_finite"])
+            _count(rec, "reward-extremes:overflow:runs-that-raised", 1 if p.raised else 0)
+        for w in st["weights"]:
+            _count(rec, f"reward-extremes:weight:{w!r}")
+        rec["cases"].append((f"{unit['scenario']}|rewards|{mode}|{st['weights']}", True))
+
+
+def _do_corpus(rec: dict, unit: dict):
+    w = json.loads(open(unit["file"]).read())
+    rp = w["replay"]
+    _count(rec, "corpus:replayed")
+    rec["cases"].append(("corpus|" + unit["label"], True))
+    if rp.get("kind", "env") == "env":
+        p = envrig.run_ops(_cfg_of(rp), rp["ops"], rp.get("max_len"), marl=bool(rp.get("marl")))
+        _absorb(rec, p, rp.get("scenario", unit["label"]), "corpus:" + unit["label"], _cfg_of(rp), rp.get("max_len"), marl=bool(rp.get("marl")))
+        _scripted_hist(rec, p, "corpus")
+    elif not replay(w):
+        rec["viol"].append({"sig": w.get("sig", {"kind": "corpus"}), "what": f"corpus witness {unit['label']} fails again: {w.get('what', '')[:200]}",
+                            "replay": rp, "agent_file": None, "kind": "corpus"})
+
+
+KINDS = {"corpus": _do_corpus, "rewards": _do_rewards, "case": _do_case, "sched": _do_sched, "marl": _do_marl, "probe": _do_probe, "disturb": _do_disturb, "agents": _do_agents}
 
 
 def _exec_unit(unit: dict) -> dict:
@@ -383,6 +439,10 @@ def _phase1(ctx: Ctx, rng: Rng) -> List[dict]:
         if name in shipped:
             units.append({"kind": "marl", "label": name, "scenario": name, "rng": rng.fork("marl" + name), "max_len": rng.choice([9, 21]),
                           "episodes": ctx.scale(2, 4), "weight": 6})
+    for name in ("data_manipulation", "shared_rewards"):
+        if name in shipped:
+            units.append({"kind": "rewards", "label": name, "scenario": name, "rng": rng.fork("rew" + name), "n": ctx.scale(6, 30),
+                          "episodes": 2, "steps": ctx.scale(12, 30), "weight": 6})
     r_ag = rng.fork("agents")
     units.append({"kind": "agents", "label": "sweep-tap1", "family": "sweep", "agent": "tap1", "rng": r_ag.fork("s1"), "thorough": ctx.thorough,
                   "n_cfg": 6, "n_pairs": 12, "weight": 40 if ctx.thorough else 8})
@@ -447,11 +507,14 @@ def _phase2(ctx: Ctx, rng: Rng, probes: List[Tuple[dict, dict]]) -> List[dict]:
                 items = [it for it in dist.plan(cfg, ex["buckets"], r, True, 0, 12) if it["why"] == "pair" or it["dist"][0][1] in rel]
                 items += [it for it in dist.plan(cfg, ex["buckets"], r.fork("s"), False, 10, 0, cap=0) if it["why"] == "sampled"]
         else:
-            items = dist.plan(cfg, ex["buckets"], r, False, n_sample=ctx.scale(3, 12), n_pairs=ctx.scale(3, 24),
-                              cap=(22 if "tap003" not in unit["label"] else 12) if big else 14)
-        for i in range(0, len(items), CHUNK):
-            units.append({"kind": "disturb", **spec, "seed": unit["seed"], "items": items[i:i + CHUNK], "sample": i == 0,
-                          "weight": (14 if big else 5) * len(items[i:i + CHUNK])})
+            # quick: the relevant actions (capped; different action types first), a few of the others, a few pairs
+            n_rel = len(ex.get("relevant") or [])
+            cap = min(n_rel, 16 if n_rel <= 24 else 10) if big else 12
+            items = dist.plan(cfg, ex["buckets"], r, False, n_sample=2, n_pairs=2, cap=cap)
+        chunk = CHUNK if ctx.thorough else 4
+        for i in range(0, len(items), chunk):
+            units.append({"kind": "disturb", **spec, "seed": unit["seed"], "items": items[i:i + chunk], "sample": i == 0,
+                          "weight": (14 if big else 5) * len(items[i:i + chunk])})
     return units
 
 
@@ -491,7 +554,7 @@ def replay(rec: dict) -> bool:
     ops = rp.get("ops")
     if ops is None:      # records written by the first version of the check: "reset" entries without a seed
         ops = [["reset", rp.get("seed"), None] if a == "reset" else a for a in rp.get("log", [])]
-    p = envrig.run_ops(rp["cfg"], ops, rp.get("max_len"), marl=bool(rp.get("marl")))
+    p = envrig.run_ops(_cfg_of(rp), ops, rp.get("max_len"), marl=bool(rp.get("marl")))
     if p.fails:
         return False
     exe = LEAN / ".lake" / "build" / "bin" / EXE
@@ -596,18 +659,10 @@ def run(ctx: Ctx):
     env_viol: List[dict] = []
     walls: Dict[str, float] = {}
 
-    # ---- corpus: witnesses of earlier findings are replayed first
-    for f in sorted((VERIF / "corpus" / "C01").glob("*.json")):
-        rec = json.loads(f.read_text())
-        ok = replay(rec)
-        ctx.count("corpus:replayed")
-        ctx.cov["traces_validated_against_impl"] += 1
-        ctx.case("corpus|" + f.name, True)
-        if not ok:
-            ctx.violation(rec.get("sig", {"kind": "corpus"}), f"corpus witness {f.name} fails again: {rec.get('what', '')[:200]}", rec["replay"])
-
+    # ---- corpus: stored witnesses are replayed on every run (as units of the first phase)
     t0 = time.time()
-    units1 = _phase1(ctx, rng)
+    units1 = [{"kind": "corpus", "label": f.name, "file": str(f), "weight": 40} for f in sorted((VERIF / "corpus" / "C01").glob("*.json"))]
+    units1 += _phase1(ctx, rng)
     recs1 = _pool_map(units1, n_workers)
     _merge(ctx, units1, recs1, all_lines, all_impl, env_viol)
     ctx.cov["phase1_wall_s"] = round(time.time() - t0, 1)
@@ -675,7 +730,7 @@ def run(ctx: Ctx):
         if sdir:
             rp["scenario_dir"] = sdir
         else:
-            rp["cfg"] = _resolve_cfg({k: v for k, v in u.items() if k in ("label", "scenario", "sched_entry", "family", "size", "shadowing", "rng", "aug")})[0]
+            rp["cfg_yaml"] = _dump(_resolve_cfg({k: v for k, v in u.items() if k in ("label", "scenario", "sched_entry", "family", "size", "shadowing", "rng", "aug")})[0])
         ctx.violation({"kind": "bookkeeping-differs-from-model", "op": q.split()[0]},
                       f"{u.get('label')}/{variant}: episode bookkeeping after `{q}`: impl {a!r} vs proved model {b!r}", rp)
     ctx.oblige("rig:R-env bookkeeping agrees with the model at every step", "correspondence", not bad, f"{len(bad)} of {len(all_impl)} lines differ")
